@@ -285,7 +285,9 @@ def check_seek_protocols(ctx, F):
                     bad = 'seek/read_point are not applied to self.bulk with the recorded backend position'
                     break
                 point = ev.final_read(r, (1, 'deref', ('f', 'point')))
-                if not (point[0] == 'unwrap' and sym.contains(point, lambda x: isinstance(x, tuple) and x and x[0] == 'call' and x[1] == rname)):
+                # the Ok payload of the reader's result, obtained by `?` (unwrap) or by an explicit match (payload .. Ok)
+                is_ok_payload = point[0] == 'unwrap' or (point[0] == 'payload' and point[2] == 'Ok')
+                if not (is_ok_payload and sym.contains(point, lambda x: isinstance(x, tuple) and x and x[0] == 'call' and x[1] == rname)):
                     bad = 'point is not the freshly read window (%s)' % sym.show(point)[:100]
                     break
                 if ev.final_read(r, (1, 'deref', ('f', 'state'))) != ('in', (2, ('f', '1'))):
